@@ -26,8 +26,10 @@ type c11Decl struct {
 
 var c11Cache = map[string]*c11Decl{}
 
+var c11IgnoreUnknown bool // set per leaf before c11Get: the parser additionally carries IgnoreUnknown (a value fault of a known option is not an unknown option)
+
 func c11Get(t *decl.Type, base int, choices []string) *c11Decl {
-	key := fmt.Sprintf("%s/%d/%s", t.Name, base, strings.Join(choices, ","))
+	key := fmt.Sprintf("%s/%d/%s/%v", t.Name, base, strings.Join(choices, ","), c11IgnoreUnknown)
 	if cd := c11Cache[key]; cd != nil {
 		return cd
 	}
@@ -42,7 +44,11 @@ func c11Get(t *decl.Type, base int, choices []string) *c11Decl {
 		cd.pos = &decl.PosArg{Field: "P", Type: pt}
 		top.Pos = []*decl.PosArg{cd.pos}
 	}
-	cd.d = (&decl.Decl{Top: top, Options: flags.PassDoubleDash}).Finish()
+	opts := flags.Options(flags.PassDoubleDash)
+	if c11IgnoreUnknown {
+		opts |= flags.IgnoreUnknown
+	}
+	cd.d = (&decl.Decl{Top: top, Options: opts}).Finish()
 	c11Cache[key] = cd
 	return cd
 }
@@ -127,7 +133,7 @@ func c11Check(c *explore.Ctx, cd *c11Decl, path int, text string, part string) {
 		}
 	}
 	c.Describe(func() interface{} {
-		return map[string]interface{}{"part": part, "type": t.Name, "base": base, "path": c11PathNames[path], "text": text, "choices": cd.opt.Choices}
+		return map[string]interface{}{"part": part, "type": t.Name, "base": base, "path": c11PathNames[path], "text": text, "choices": cd.opt.Choices, "ignore_unknown": cd.d.Options&flags.IgnoreUnknown != 0}
 	})
 	// reference verdict
 	var want reflect.Value
@@ -251,7 +257,9 @@ func c11Bounds(t *decl.Type) []*big.Int {
 
 func init() {
 	body := func(c *explore.Ctx) {
-		switch part := c.Choose(5); part {
+		part := c.Choose(5)
+		c11IgnoreUnknown = part != 0 && part != 2 && c.Bool()
+		switch part {
 		case 0: // every value of the small integer types in every base
 			t := c11SmallInts[c.Choose(len(c11SmallInts))]
 			var base int
@@ -343,7 +351,7 @@ func init() {
 		Rule: "(i) every value of int8/uint8/int16/uint16 plus two out-of-range neighbours on each side, rendered in every base 2..36 in both letter cases; " +
 			"(ii) min-1,min,min+1,-1,0,1,max-1,max,max+1,2^64,2^128,-2^63,-2^63-1 for int/int16/int32/int64/uint/uint16/uint32/uint64 in bases 10,2,8,16,36, with and without a leading zero, through 6 paths (--val=V, --val V, default tag, environment, positional, INI entry); " +
 			"(iii) every string of length <= 4 over {0 1 9 a f z - + . e x _ space I n :} for 13 types x bases 10,2,16,36 (thorough: also via default tag and positional); (iv) 56 float rounding/limit/spelling witnesses x sign x float32/float64 x 6 paths; " +
-			"(v) choice sets x near-miss values (prefix, suffix, case, padding, leading zero/plus) x 4 paths; oracle: own digit parser + math/big (integers), big.Rat nearest-even (floats), three classes must-accept / must-reject / grey; " +
+			"(v) choice sets x near-miss values (prefix, suffix, case, padding, leading zero/plus) x 4 paths; (ii), (iv) and (v) also with IgnoreUnknown set on the parser; oracle: own digit parser + math/big (integers), big.Rat nearest-even (floats), three classes must-accept / must-reject / grey; " +
 			"distinct = distinct (type, base, class, accepted?, stored value)",
 		Assumptions:  []string{"duration syntax is Go's time.ParseDuration (trusted)", "bool spellings other than true/false, a leading '+', inf/nan/hex-float/underscore spellings are grey: acceptance not asserted, exactness is"},
 		RequiredHits: []string{"must-accept", "must-reject", "grey", "not-a-choice"},
